@@ -7,6 +7,9 @@ Record c11_case := mkCase {
   c_steps : list (op * obs)            (* operation, implementation's observation after it *)
 }.
 
+(* shorthand used by the generated case files when both digests are the same number *)
+Definition dd (x : N) : option (N * N) := Some (x, x).
+
 (* Model and Spec are run in lock step over the history; the implementation's
    observation of every step is compared with both.  The history is cut at the
    first operation outside the property's quantifier (an index not valid for a
